@@ -579,6 +579,35 @@ class RichGen:
         return c
 
 
+def flag_matrix_worlds():
+    """directed family: every multi-argument built-in over every pairing of {plain, known secret, unknown-because-failed
+    ciphertext, provider output (unknown while checking / when the provider fails), dangling} arguments"""
+    pool = [("plain", ("str", "pl")), ("sec", ("sym", [("name", "sec")])), ("bad", ("sym", [("name", "bad")])),
+            ("out", ("sym", [("name", "o"), ("name", "val")])), ("outsec", ("sym", [("name", "o"), ("name", "tok")])),
+            ("dangling", ("sym", [("name", "nope")])), ("lit-secret", ("secret", "hunter2"))]
+    const = {"s": False, "u": False, "v": {"o": {"val": xspec("out"), "tok": xspec("t0k", sec=True)}}}
+    base = [("sec", ("secret", "s3p")), ("bad", ("cipher", envelope_repr(b"!undecryptable"))),
+            ("o", ("open", "pm", ("obj", [("region", ("str", "x"))])))]
+    out = []
+    for dn, d in pool:
+        for an, a in pool:
+            for bn, b in pool:
+                if an > bn:
+                    continue
+                vals = list(base) + [
+                    ("j", ("join", d, ("arr", [a, b]))),
+                    ("j2", ("join", d, ("arr", [("str", "k"), a]))),
+                    ("t", ("tojson", ("obj", [("p", a), ("q", b)]))),
+                    ("i", norm_interp([("pre-", [("name", "j")]), ("-post", None)])),
+                    ("after", ("str", "still evaluated"))]
+                c = case_from_graph({"root": {"imports": [], "values": vals}}, "root")
+                c["provs"] = {"pm": {"in": "always", "out": out_schema_of(const), "beh": "const", "const": const}}
+                c["sites"] = [{"prov": "pm", "env": "root", "literal_inputs": [("region", ("str", "x"))]}]
+                c["matrix"] = "%s/%s/%s" % (dn, an, bn)
+                out.append(c)
+    return out
+
+
 def lit_xval_wire(e, secret=False):
     """wire xval of a literal expression (secrets flagged)"""
     k = e[0]
